@@ -490,7 +490,7 @@ func c17RunCaseHTTP(id int, cs c17Case, emit func(any)) error {
 		emit(map[string]any{"ev": "Run", "id": id, "run": rn + 1, "reports": reps, "shift": run.Var.Shift, "mod": run.Var.Mod,
 			"pending": pend, "before": in.comments(srv.before), "listed": []int{}, "calls": calls, "callsobs": false,
 			"creates": in.comments(srv.creates), "deleted": srv.deleted, "after": in.comments(srv.store),
-			"general": len(srv.general) - ngen, "isequal": 0, "err": errStr, "fault": srv.fault, "hit": srv.hit, "nerrs": nerrs})
+			"general": len(srv.general) - ngen, "isequal": 0, "notice": 0, "err": errStr, "fault": srv.fault, "hit": srv.hit, "nerrs": nerrs})
 		srv.mu.Unlock()
 	}
 	return nil
